@@ -186,4 +186,31 @@ example :
     (run cfg (pre ++ [.drop 2])).circ.hoAdmitted = 1 ∧ (run cfg (pre ++ [.drop 2])).circ.released = 1 := by
   decide
 
+/-! ## Event listeners
+
+`cfg.listen = false`: the breaker is built without any event listener (the log of the real breaker then has no `transition`
+lines; the line protocol of the model filters them). Nothing else may depend on it. -/
+
+/-- The breaker behaves the same with and without listeners: no step reads `cfg.listen`. -/
+theorem listeners_do_not_matter (cfg : Cfg) (b : Bool) (ops : List Op) :
+    run { cfg with listen := b } ops = run cfg ops := rfl
+
+/-- The caller that ends the open wait is the first trial call of the new episode and is COUNTED: after its admission the
+breaker is half-open with `half_open_admitted = 1` (so with `permitted = 1` every further caller is rejected while it is in
+flight: `excess_rejected`). -/
+theorem wait_ending_caller_is_counted (cfg : Cfg) (c : Circuit) (now : Nat)
+    (ho : c.st = .opened) (hw : now - c.lastChange ≥ cfg.waitMs) :
+    (tryAcquire cfg c now).2.1 = true ∧ (tryAcquire cfg c now).1.st = .halfOpen ∧
+    (tryAcquire cfg c now).1.hoAdmitted = 1 ∧ (tryAcquire cfg c now).1.episode = c.episode + 1 := by
+  unfold tryAcquire
+  simp [ho, hw, transitionTo, clearWindow]
+
+/-- Non-vacuity, no listener, `permitted = 1`: the caller that ends the wait is in flight, the next caller is rejected. -/
+example :
+    let cfg : Cfg := { waitMs := 10, permitted := 1, listen := false }
+    let pre := [Op.forceOpen, .adv 10, .arrive 1 ⟨500, .ok⟩ 0, .poll 1, .arrive 2 ⟨0, .ok⟩ 0, .poll 2]
+    (run cfg pre).circ.st = .halfOpen ∧ (run cfg pre).circ.hoAdmitted = 1 ∧ (run cfg pre).serial = 1 ∧
+    (run cfg pre).log.getLast? = some (10, CEv.result 2 .openCircuit) := by
+  decide
+
 end TR.Props.C09
